@@ -30,6 +30,12 @@ Section Map.
   Definition vsub (u v : vec R) : vec R := fun i => u i - v i.
   Definition matmul (d : nat) (A B : mat R) : mat R := fun i k => fsum d (fun j => A i j * B j k).
 
+  (* MappingIsoparametric.Fmap / _J: basis expansion  F_i(X) = sum_k p[i, t[k]] phi_k(X),  J_ij = sum_k p[i, t[k]] d_j phi_k(X) *)
+  Definition isoF (nv : nat) (phi : vec R -> vec R) (P : mat R) (X : vec R) : vec R :=
+    fun i => fsum nv (fun k => P k i * phi X k).
+  Definition isoJ (nv : nat) (dphi : vec R -> mat R) (P : mat R) (X : vec R) : mat R :=
+    fun i j => fsum nv (fun k => P k i * dphi X k j).
+
   (* the vertex table of a facet (or of a re-ordered cell) given the list of local vertex numbers *)
   Definition sel (P : mat R) (q : list nat) : mat R := fun k i => P (nth k q 0%nat) i.
   (* barycentric coordinate of the reference point Y with respect to reference vertex k *)
